@@ -5,7 +5,7 @@
 // integer and model and implementation must agree exactly, ties included.
 //
 // stdin (one token stream, line oriented):
-//   CASE <N> D            followed by N lines of N integers: the distance matrix
+//   CASE <N> D            followed by N lines of N numbers (decimal integers or hex floats): the distance matrix
 //   CASE <N> K <dim>      followed by N lines of dim integers: feature vectors, kernel = dot product
 //   F <method> <k>        tapkee_internal::find_neighbors(method, begin, end, cb, k, false)
 //                         method: B (Brute) V (VpTree) C (CoverTree)
@@ -254,9 +254,9 @@ int main()
                     std::istringstream rs(line);
                     for (int j = 0; j < N; j++)
                     {
-                        long long v = 0;
-                        rs >> v;
-                        M[i][j] = (double)v;
+                        std::string tok;
+                        rs >> tok;
+                        M[i][j] = strtod(tok.c_str(), NULL); // decimal integers or hex floats
                     }
                 }
             }
@@ -292,15 +292,22 @@ int main()
             continue;
         }
         if (N <= 0) continue;
-        if (kernel)
+        try
         {
-            matrix_kernel_callback cb = {&M};
-            dispatch(cmd, is, samples, KD(cb));
+            if (kernel)
+            {
+                matrix_kernel_callback cb = {&M};
+                dispatch(cmd, is, samples, KD(cb));
+            }
+            else
+            {
+                matrix_distance_callback cb = {&M};
+                dispatch(cmd, is, samples, PD(cb));
+            }
         }
-        else
+        catch (const std::exception& e)
         {
-            matrix_distance_callback cb = {&M};
-            dispatch(cmd, is, samples, PD(cb));
+            printf("X %s exception %s\n", cmd.c_str(), e.what());
         }
         fflush(stdout);
     }
